@@ -96,6 +96,12 @@ structure FObj where
   env : Option Env
   lex : Env
   fixed : Option (List (Option Seq))
+  /-- `func.context = copy(context)` of a named function reference: the captured focus
+  (`context.item`, `context.position`, `context.size`); `flitem` ghost: the lexical context item -/
+  fitem : Option Item := none
+  flitem : Option Item := none
+  fpos : Nat := 0
+  fsize : Nat := 0
   deriving Repr, Inhabited
 
 structure St where
@@ -139,6 +145,9 @@ structure ICtx where
   item : Option Item
   lex : Env
   litem : Option Item
+  /-- `context.position`, `context.size` -/
+  pos : Nat := 1
+  size : Nat := 1
   deriving Repr, Inhabited
 
 /-- `XPathFunction.arity`: `nargs` when it is an int (references, partial functions) else the
@@ -185,7 +194,7 @@ def runBody (c : ICtx) (D : Env) (body : Expr) (binds : List (Nat × Seq)) (env 
   let D1 := match cfg.lexical, env with
     | true, some e => envUpdate e binds
     | _, _ => envUpdate D (binds ++ env.getD [])
-  let r ← ev body { item := c.item, lex := binds ++ lex, litem := none } D1
+  let r ← ev body { item := c.item, lex := binds ++ lex, litem := none, pos := c.pos, size := c.size } D1
   -- with F05 the dict that was written is the caller's
   pure (r.1, if cfg.leak then r.2 else D)
 
@@ -204,7 +213,9 @@ def callFn (c : ICtx) (D : Env) (a : Nat) (args : List Seq) : IM (Seq × Env) :=
           IM.flag { misc := true }
           pure ([.bool true], D)
         else do
-          let r ← IM.lift (b.ap full)
+          -- `context = copy(self.context or context)`: a reference evaluates in the context it captured
+          IM.flag { focus := b.focusDep && decide (o.fitem ≠ o.flitem) }
+          let r ← IM.lift (b.apF (o.fitem, o.fpos, o.fsize) full)
           pure (r, D)
       else IM.throw .XPTY0004
     else IM.throw .XPTY0004
@@ -249,7 +260,8 @@ def partialApply (c : ICtx) (D : Env) (a : Nat) (args : List (Option Expr)) : IM
     let vars ← currentVars cfg o
     let r ← evalArgs ev c D args
     let pat := match o.fixed with | none => r.1 | some old => refill old r.1
-    let n ← IM.alloc { tok := none, code := o.code, env := vars.1, lex := vars.2, fixed := some pat }
+    let n ← IM.alloc { tok := none, code := o.code, env := vars.1, lex := vars.2, fixed := some pat,
+                       fitem := o.fitem, flitem := o.flitem, fpos := o.fpos, fsize := o.fsize }
     pure ([.fn n], r.2)
   else IM.throw .XPTY0004
 
@@ -374,12 +386,13 @@ def forLoop (c : ICtx) (x : Nat) (b : Expr) : Env → Seq → Seq → IM (Seq ×
     let r ← ev b { c with lex := (x, [i]) :: c.lex } (envSet D x [i])
     forLoop c x b r.2 (acc ++ r.1) is
 
-/-- `for context.item in self[0].select_with_focus(context): yield from self[1].select(context)` -/
-def mapLoop (c : ICtx) (b : Expr) : Env → Seq → Seq → IM (Seq × Env)
-  | D, acc, [] => pure (acc, D)
-  | D, acc, i :: is => do
-    let r ← ev b { c with item := some i, litem := some i } D
-    mapLoop c b r.2 (acc ++ r.1) is
+/-- `for context.item in self[0].select_with_focus(context): yield from self[1].select(context)`
+(`select_with_focus`: `context.size = len(results)`, `context.position` = 1, 2, …) -/
+def mapLoop (c : ICtx) (b : Expr) (size : Nat) : Nat → Env → Seq → Seq → IM (Seq × Env)
+  | _, D, acc, [] => pure (acc, D)
+  | k, D, acc, i :: is => do
+    let r ← ev b { c with item := some i, litem := some i, pos := k, size := size } D
+    mapLoop c b size (k + 1) r.2 (acc ++ r.1) is
 
 def step (e : Expr) (c : ICtx) (D : Env) : IM (Seq × Env) :=
   match e with
@@ -402,6 +415,17 @@ def step (e : Expr) (c : ICtx) (D : Env) : IM (Seq × Env) :=
     IM.flag { focus := decide (c.item ≠ c.litem) }
     match c.item with
     | some i => pure ([i], D)
+    | none => IM.throw .XPDY0002
+  | .posE => do
+    -- `position()`: context.position
+    IM.flag { focus := decide (c.item ≠ c.litem) }
+    match c.item with
+    | some _ => pure ([.int c.pos], D)
+    | none => IM.throw .XPDY0002
+  | .lastE => do
+    IM.flag { focus := decide (c.item ≠ c.litem) }
+    match c.item with
+    | some _ => pure ([.int c.size], D)
     | none => IM.throw .XPDY0002
   | .add a b => evArith ev .add a b c D
   | .sub a b => evArith ev .sub a b c D
@@ -432,7 +456,9 @@ def step (e : Expr) (c : ICtx) (D : Env) : IM (Seq × Env) :=
     let n ← IM.alloc { tok := some t, code := .inline ps body, env := some D, lex := c.lex, fixed := none }
     pure ([.fn n], D)
   | .named b => do
-    let n ← IM.alloc { tok := none, code := .builtin b, env := none, lex := [], fixed := none }
+    -- a fresh token per evaluation, `func.context = copy(context)`
+    let n ← IM.alloc { tok := none, code := .builtin b, env := none, lex := [], fixed := none,
+                       fitem := c.item, flitem := c.litem, fpos := c.pos, fsize := c.size }
     pure ([.fn n], D)
   | .call f args => do
     let fv ← ev f c D
@@ -442,8 +468,9 @@ def step (e : Expr) (c : ICtx) (D : Env) : IM (Seq × Env) :=
       let vals ← evalList ev c fv.2 (args.filterMap id)
       callFn cfg ev c vals.2 a vals.1
   | .spart b args =>
-    -- `name(?, v, …)`: the parser makes the call token itself a partial function; its fixed argument
-    -- tokens are evaluated at every call (the generator uses literals there: same values)
+    -- `name(?, v, …)`: the parser makes the call token a partial function; with the repair
+    -- `fix: a partial application written in the expression evaluates its fixed arguments when it is
+    -- evaluated …` its `evaluate` binds the fixed arguments now and returns a new function item
     if args.length = b.arity then do
       let r ← evalArgs ev c D args
       let n ← IM.alloc { tok := none, code := .builtin b, env := none, lex := [], fixed := some r.1 }
@@ -452,7 +479,7 @@ def step (e : Expr) (c : ICtx) (D : Env) : IM (Seq × Env) :=
   | .par e => ev e c D
   | .smap a b => do
     let xs ← ev a c D
-    mapLoop ev c b xs.2 [] xs.1
+    mapLoop ev c b xs.1.length 1 xs.2 [] xs.1
   | .forEach s f => do
     let fa ← funArgNote ev c D f 1
     let xs ← ev s c fa.2
